@@ -22,7 +22,9 @@ CLAIMED = {
              'real emulate_cycle with all instruction fields, all 34 physical registers, NZCVQ/GE/IT/AIF and the mode as '
              'solver variables; per path the solver shows the whole post-state (every bank, CPSR, SPSRs, all system '
              'registers, memory) equals the ARM ARM operation pseudocode. Bounded only by enumerated architecture '
-             'versions (quick 6,7; thorough 4-7) and by excluding architecturally UNPREDICTABLE inputs.',
+             'versions (quick: 7 for every row, 6 for the anchor and PC-writing ARM rows; thorough 4-7) and by excluding '
+             'architecturally UNPREDICTABLE inputs; history independence on 7 concrete instructions whose operands read '
+             'the flags / IT state.',
         ref='DESIGN.md 6/C01',
         note='trusts z3, the symx engine, the oracle transcription (spec/isa_dp.py, spec/state.py); summaries of leaf '
              'helpers are re-proved against the real code on every run'),
@@ -92,7 +94,8 @@ CLAIMED = {
     'C07': dict(
         text='The real Thumb decoder trees on symbolic words: all 2^16 16-bit encodings with symbolic IT state and all '
              '2^32 32-bit encodings (sharded): per path no defined word of a different row; dependence only on word + IT '
-             'state; fetch length decision from hw1[15:11].',
+             'state; fetch length decision from hw1[15:11]; operand rows (every Thumb row through emulate_cycle); history '
+             'independence of decode (same encoding first run from unrelated flags / IT state).',
         ref='DESIGN.md 6/C07', note='as C06; known finding F041 (ENTERX/LEAVEX decoded although ThumbEE is not '
                                     'implemented) excluded by region, still reported'),
     'C08': dict(
@@ -106,7 +109,9 @@ CLAIMED = {
         text='Every row of the saturating / extend / bit-field / reverse / PKH / CLZ and parallel add-sub / SEL / USAD '
              'tables (and the multiply/divide table when present) stepped symbolically at full width incl. prior Q/GE; '
              'whole post-state equals the pseudocode.',
-        ref='DESIGN.md 6/C09', note='known finding F009 (BFI with lsb != 0) excluded by region, still reported'),
+        ref='DESIGN.md 6/C09', note='known finding F009 (BFI with lsb != 0) excluded by region, still reported; quick tier: '
+                                    'the solver-bound rows (USADA8, SMLAD/SMLSD, SMLALxy, SMLALD/SMLSLD, SBFX) with register '
+                                    'numbers pinned (DESIGN 14.9), everything symbolic in the thorough tier'),
     'C12': dict(
         text='cpsr_write_by_instr / spsr_write_by_instr with value, byte mask, whole CPSR, SCR.{NS,AW,FW}, NMFI, RFR '
              'symbolic vs B1.3.3 + direct statements; every system-family row (MRS/MSR/CPS/SETEND/SUBS PC,LR/ERET, '
@@ -138,13 +143,17 @@ CLAIMED = {
              'hw1[12:4]) with every other bit and the whole machine state symbolic, UNPREDICTABLE included: no host '
              'exception escapes (NotImplementedError of mock hooks allowed), registers stay 32-bit, PC aligned.',
         ref='DESIGN.md 6/C18', note='single step from arbitrary valid state; SCR.NS, NSACR, CPACR symbolic; LDM/STM '
-                                    'register lists windowed; MPU off'),
+                                    'register lists windowed; MPU off; quick: a fixed spread of 72 shards plus the shards '
+                                    'that executed a source file differing from the last fully checked tree (vf/changed.py); '
+                                    'thorough: every shard'),
     'C19': dict(
         text='Same sweep from CPSR.M = User: still User with A/I/F, other banks, SPSRs and EVERY system register '
              '(generic snapshot) unchanged, or exception taken to a privileged mode at its vector with SPSR.M = User; '
              'SCR.{NS,FW,AW}, NSACR, CPACR symbolic. Unprivileged loads/stores (LDRT/STRT & co, 24 rows) stepped in '
              'every mode with the MPU on against the oracle that applies User permissions to their accesses.',
-        ref='DESIGN.md 6/C19', note='as C18; MPU rows with one symbolic region (thorough: subregions, two regions)'),
+        ref='DESIGN.md 6/C19', note='as C18 (quick: fixed spread of 72 shards + the 29 privileged-instruction shards + '
+                                    'change-directed shards; thorough: all); MPU rows with one symbolic region (thorough: '
+                                    'subregions, two regions)'),
     'C20': dict(
         text='Scratch state havocked before steps (determinism / snapshot independence), reflection-based check that no '
              'module-level object is written, and isolation with a foreign instance created between construction and '
